@@ -30,11 +30,11 @@ CONSTANTS
   VarBytes,    \* their names as bytes (for $NAME inside file contents)
   Str,         \* literal word -> its bytes (patterns, arguments of hecho)
   BadPats,     \* pattern words that do not compile as a regular expression
-  Profiles,    \* profile name -> [explicit, hascond, cmds, unique, dup]
+  Profiles,    \* profile name -> [explicit, hascond, cmds, unique, dup, arch]
   LineSeq,     \* the vocabulary: a sequence of lines (a script is a sequence of indexes into it)
   Roots,       \* the configurations explored: a set of [coe, prof]
   DepthOf,     \* profile name -> maximal script length explored under it
-  InitFS,      \* the tree the initial archive unpacks to
+  InitFS,      \* archive number -> the tree that initial archive unpacks to
   EmitMode,    \* "all": one case per transition; "terminal": only finished / full-length scripts; "none"
   Bug          \* "none", or the name of a seeded fault (Bug_*.cfg)
 
@@ -455,8 +455,11 @@ VARIABLES
   hist, effects, met                      \* history: line indexes, probe observations, per-line outcome
 
 vars == <<root, fs, cd, env, out, err, inp, bg, verdict, failed, lineno, failLines, hist, effects, met>>
-\* the generator explores each abstract state once, through its shortest script
-View == <<root, fs, cd, env, out, err, inp, bg, verdict, failed>>
+\* the generator explores each (abstract state, script length) once: the history is hidden, the
+\* length is not, so that the set of explored transitions does not depend on the order in which
+\* TLC's workers reach a state (with the length hidden, a state first reached through a longer
+\* script would be cut off by the depth bound)
+View == <<root, fs, cd, env, out, err, inp, bg, verdict, failed, lineno>>
 
 P == Profiles[root.prof]
 Cur == [fs |-> fs, cd |-> cd, env |-> env, out |-> out, err |-> err, inp |-> inp, bg |-> bg,
@@ -507,7 +510,7 @@ EmitCase(h, o, l, alt) ==
 
 Init ==
   /\ root \in Roots
-  /\ fs = InitFS /\ cd = <<>> /\ env = [v \in Vars |-> <<>>]
+  /\ fs = InitFS[Profiles[root.prof].arch] /\ cd = <<>> /\ env = [v \in Vars |-> <<>>]
   /\ out = <<>> /\ err = <<>> /\ inp = <<>> /\ bg = <<>>
   /\ verdict = IF SetupFails(root) THEN "fail" ELSE "running"
   /\ failed = SetupFails(root)
